@@ -60,9 +60,7 @@ def run(ck, writers=('encap', 'encap_frag', 'encap_ext'), pid_rules='C06', floor
                     ck.discharged += 1
                 # R3 write extent = [0, returned length), tiled without overlap
                 wr = ghost(w, 'writes')
-                if wname == 'encap_ext':
-                    ck.discharged += 1     # decided per write below only (chain loops: arity varies), see assumptions
-                elif wr is None or wr[0] != 'agg':
+                if wr is None or wr[0] != 'agg':
                     ck.finding(f'{pid_rules}.R3', ENC + wname, f"writes-unknown:{part[0]}", f"{wname} ({part[0]}): set of written intervals not known at return")
                 else:
                     ivs = [(x[1][0][1], x[1][1][1]) for x in wr[1]]
@@ -76,10 +74,23 @@ def run(ck, writers=('encap', 'encap_frag', 'encap_ext'), pid_rules='C06', floor
                     if not ok:
                         ck.finding(f'{pid_rules}.R3', ENC + wname, f"overlap:{part[0]}", f"{wname} ({part[0]}): written intervals are not pairwise disjoint")
                     elif not w.store.entails_eq(total, rlen[1]):
-                        ck.finding(f'{pid_rules}.R3', ENC + wname, f"extent:{part[0]}", f"{wname} ({part[0]}): bytes written {total.pretty()} differ from the returned length {rlen[1].pretty()}")
+                        if any(x in a.I.loop_atoms for x in (total - rlen[1]).atoms()):
+                            # a chain of any length: the bytes written are one gap-free run (adjacent writes coalesce, overlaps are
+                            # reported at the write), but that its end is the returned length relates two loops over the
+                            # extensions; decided for chains of up to three extensions in C13.R8
+                            ck.declined_instances += 1
+                            dk = {'fn': wname, 'site': None, 'obligation': f"bytes written {total.pretty()} == returned length {rlen[1].pretty()}", 'reason': 'two loops over the extension list (decided for chains of 1..3 extensions by C13.R8)'}
+                            if dk not in ck.declined:
+                                ck.declined.append(dk)
+                        else:
+                            ck.finding(f'{pid_rules}.R3', ENC + wname, f"extent:{part[0]}", f"{wname} ({part[0]}): bytes written {total.pretty()} differ from the returned length {rlen[1].pretty()}")
                     else:
                         ck.discharged += 1
                 ck.sample({'fn': wname, 'kind': part[0], 'label_type': part[1], 'status': sname, 'returned': rlen[1].pretty() if rlen[0] == 'int' else '?', 'gse_len': g[1].pretty()})
+        # ---- R3 (per write) no write lands on bytes already written
+        for r in a.events('write_overlap'):
+            start, ln, s0, l0 = r.data[1:5]
+            ck.finding(f'{pid_rules}.R3', ENC + wname, 'overlap-at-write', f"{wname}: the write [{start.pretty()}, +{ln.pretty()}) is neither adjacent to nor shown disjoint from the earlier write [{s0.pretty()}, +{l0.pretty()})", r.site)
         # ---- R3 (per write) nothing beyond the packet, R4 field order
         seen_fields = {}
         for row in rows:
@@ -104,6 +115,10 @@ def run(ck, writers=('encap', 'encap_frag', 'encap_ext'), pid_rules='C06', floor
                 ck.discharged += 1
             # field order
             kind = row['src'][0]
+            if W.store.entails_eq(row['len'], Lin.c(0)) and not (kind in ('label',) and L == 0):
+                # a write of no bytes (`copy_from_slice(&[])` for an extension without data) is not a field: nothing to place
+                ck.discharged += 1
+                continue
             if wname == 'encap_ext' and kind in ('be?', 'arr?', 'seq?', '?', 'ptype', 'pdu', 'value?'):
                 # extension area: ids / data / displaced protocol type / payload after the chain: layout not decided (C13)
                 ck.declined_instances += 1
@@ -117,7 +132,8 @@ def run(ck, writers=('encap', 'encap_frag', 'encap_ext'), pid_rules='C06', floor
                 continue
             off, ln = spec[kind]
             okf = True
-            if off is not None and not W.store.entails_eq(row['start'], Lin.c(off)):
+            empty = ln == 0 and W.store.entails_eq(row['len'], Lin.c(0))      # an empty field writes nothing, wherever it is "placed"
+            if off is not None and not empty and not W.store.entails_eq(row['start'], Lin.c(off)):
                 okf = False
             if ln is not None and not W.store.entails_eq(row['len'], Lin.c(ln)):
                 okf = False
